@@ -13,7 +13,7 @@ THEOREMS = ["Econf.C14_split_join", "Econf.C14_split_total", "Econf.C14_ext_comm
 SHRINK = False
 RULE = ("every field kind (key, value, continuation line, section, comment before, comment after, file name, directory name, option "
         "string, the definitions joined under JOIN_SAME_ENTRIES with an empty one among them, econftool --delimiters) x lengths {1, BUFSIZ-2..BUFSIZ+2, 2*BUFSIZ, 64Ki, 1Mi (thorough)} and {NAME_MAX-1, NAME_MAX}, "
-        "{PATH_MAX-2..PATH_MAX+2} for names and paths (read), drop-ins of two layers whose names of NAME_MAX-1 / NAME_MAX bytes differ in one byte (with and without suffix), NAME_MAX-6..NAME_MAX and PATH_MAX-8..PATH_MAX-1 (written and read back) x every API that copies the field (string and extended getter, merge, write, "
+        "{PATH_MAX-2..PATH_MAX+2} for names and paths (read), a short name through two symbolic links into a directory whose real path has 1.6k..7.6k bytes, drop-ins of two layers whose names of NAME_MAX-1 / NAME_MAX bytes differ in one byte (with and without suffix), NAME_MAX-6..NAME_MAX and PATH_MAX-8..PATH_MAX-1 (written and read back) x every API that copies the field (string and extended getter, merge, write, "
         "re-read, error location); lengths and FNV hashes of what comes back are compared with what went in; distinct by (field, length)")
 BUFSIZ = 8192
 NAME_MAX = 255
@@ -174,6 +174,23 @@ def name_scenario(sid, kind, n):
         s.add("NEW", 1, "opt", h(b"ROOT_PREFIX=/" + b"r" * (n - 1)))
         s.add("RC", 1, h(b"p"), h(b"/usr/etc"), h(b"cfg"), h(b"conf"), h(b"="), h(b"#"))
         s.add("SLOT", 1)
+    elif kind == "deeplink":
+        # a short name that leads through two symbolic links into a directory whose real path has n bytes (beyond PATH_MAX
+        # the directory can only be made and reached in steps): the operating system opens the file, so the library reads it
+        k = max(2, n // 402)
+        A = b"/r/" + b"/".join([b"a" * 200] * k)
+        Brel = b"/".join([b"b" * 200] * k)
+        s.mkdir(A)
+        s.add("CD", h(A))
+        s.mkdir(Brel)
+        s.add("F", h(Brel + b"/f.conf"), h(b"k=") + "+" + run_token(100, 0x76) + "+" + h(b"\n"))
+        s.add("CD", h(b"/"))
+        s.link(b"/l1", A)
+        s.link(A + b"/l2", Brel)
+        s.add("RF", 0, h(b"/l1/l2/f.conf"), h(b"="), h(b"#"))
+        s.add("GET", 0, "sum", "-", h(b"k"))
+        s.meta["impl_only"] = True
+        s.meta["real"] = len(A) + 1 + len(Brel)
     elif kind == "options":
         d = b"/" + b"x" * n
         s.add("NEW", 0, "opt", h(b"ROOT_PREFIX=" + d + b";PARSING_DIRS=" + d + b":/b;CONFIG_DIRS=" + b"y" * n))
@@ -228,6 +245,8 @@ def scenarios(tier, rng):
         out.append(name_scenario("ld_%d" % n, "layerdir", n))
     for n in (100, BUFSIZ, 65536):
         out.append(name_scenario("o_%d" % n, "options", n))
+    for n in (2000, 4200, 4500, 5000, 8000):      # real path lengths 1.6k, 4023, 4425, 4827, 7641
+        out.append(name_scenario("dl_%d" % n, "deeplink", n))
     return out
 
 
@@ -322,6 +341,12 @@ def oracle(s, lines):
             return "path of %d bytes: %r" % (n, lines[0])
         if lines[1] != "errloc %s 2" % h(m["path"]):
             return "error location for a path of %d bytes is truncated or wrong" % n
+        return None
+    if f == "deeplink":
+        want = ["rf E0 obj", "get E0 " + summ(100, 0x76)]
+        got = [l for l in lines if l.startswith(("rf ", "get "))]
+        if got != want:
+            return "a file behind two symbolic links whose directory has a real path of %d bytes: %r, expected %r" % (m["real"], got, want)
         return None
     if f == "options":
         d = m["opt"]
